@@ -290,7 +290,7 @@ Theorem C06_translated_record_decoder_is_entries_dec : forall (bs : list N),
 Proof.
   exact (GoLiteC06_Decode.SliceFromBytes_is_entries_dec GoLiteC06.prog GoLiteC06.prog_uvarintReader_ReadUvarint
            GoLiteC06.prog_uvarintReader_ReadByte GoLiteC06.prog_OffsetAndSizeAndSlot_FromReader
-           GoLiteC06.prog_OffsetAndSizeAndSlotSliceFromBytes).
+           GoLiteC06.prog_OffsetAndSizeAndSlotSliceFromBytes GoLiteC06_Codec.std_ext (fun _ => eq_refl)).
 Qed.
 
 (* ... and applied to what the writer concatenates for a record (the Bytes of each entry: entries_enc) it returns
@@ -322,6 +322,48 @@ Example C06_translated_record_decoder_runs :
   = GoLite.RRet (GoLite.VTuple [GoLite.VInts []; GoLite.VErr "%w %w errors.New"%string]).
 Proof. vm_compute. repeat split; reflexivity. Qed.
 
+(* linked-log.go:(LinkedLog).ReadWithSize — the record reader every getSignaturesForAddress walks the chain with, and the
+   function whose length-prefix handling was repaired on the pinned tree (see C06_prefix_width_refuted above) — translated
+   on every check (Generated/GoLiteLLC06.v) with its callees decompressIndexes and the entry decoder: for EVERY file,
+   offset and size it IS the model's read_with_size: the 256 MiB limit, the bounds check against the file, one
+   positioned read, the record's OWN uvarint prefix compared with the size, the 9-byte pointer to the previous record,
+   decompression, the entries. Oracles: the file (os.File.ReadAt, the file size), encoding/binary.Uvarint,
+   tooling.DecompressZstd (any function whose outputs are byte strings of at most maxraw bytes) and
+   indexes.OffsetAndSize.FromBytes as ptr_dec (that function itself is translated and proved in Properties/C01.v). *)
+Require YF.Generated.GoLiteLLC06 YF.GoLiteC06_ReadWithSize.
+Theorem C06_translated_ReadWithSize_is_read_with_size :
+  forall (decompress : list N -> option (list N)) (maxraw : nat),
+  (forall d raw, decompress d = Some raw -> Forall (fun b => (b < 256)%N) raw /\ List.length raw <= maxraw) ->
+  (Z.of_nat maxraw < 4611686018427387904)%Z ->
+  forall (file : list N), (Z.of_nat (List.length file) < 4611686018427387904)%Z ->
+  forall fuel sv (off size : N), (off < 18446744073709551616)%N -> (size < 18446744073709551616)%N -> maxraw + 5 <= fuel ->
+  match read_with_size decompress file off size with
+  | Some (es, p) =>
+      GoLite.call GoLiteLLC06.prog (GoLiteC06_ReadWithSize.ext_ll decompress file) fuel "LinkedLog.ReadWithSize"%string
+        [sv; GoLite.VInt (Z.of_N off); GoLite.VInt (Z.of_N size)]
+      = GoLite.RRet (GoLite.VTuple [GoLite.VTuple (map GoLiteC06_Codec.oas_val es); GoLiteC06_ReadWithSize.os_val p; GoLite.VNil])
+  | None => exists e,
+      GoLite.call GoLiteLLC06.prog (GoLiteC06_ReadWithSize.ext_ll decompress file) fuel "LinkedLog.ReadWithSize"%string
+        [sv; GoLite.VInt (Z.of_N off); GoLite.VInt (Z.of_N size)]
+      = GoLite.RRet (GoLite.VTuple [GoLite.VInts []; GoLiteC06_ReadWithSize.os_val ptr_zero; GoLite.VErr e])
+  end.
+Proof. exact GoLiteC06_ReadWithSize.ReadWithSize_is_read_with_size. Qed.
+
+(* the translated reader RUNS: a file of two records written as the model's put writes them (identity compression); the
+   second record is read back with its entry and the pointer to the first; a size one byte off is an error *)
+Example C06_translated_ReadWithSize_runs :
+  let e1 : entry := (300, 5, 432001, 6)%N in let e2 : entry := (7, 70000, 432000, 1)%N in
+  let f1 := put id_compress [] ptr_zero [e1] in
+  let f2 := put id_compress (fst f1) (snd f1) [e2] in
+  let '(off, size) := snd f2 in
+  GoLite.call GoLiteLLC06.prog (GoLiteC06_ReadWithSize.ext_ll id_decompress (fst f2)) 40 "LinkedLog.ReadWithSize"%string
+    [GoLite.VNil; GoLite.VInt (Z.of_N off); GoLite.VInt (Z.of_N size)]
+  = GoLite.RRet (GoLite.VTuple [GoLite.VTuple [GoLiteC06_Codec.oas_val e2]; GoLiteC06_ReadWithSize.os_val (snd f1); GoLite.VNil]) /\
+  GoLite.call GoLiteLLC06.prog (GoLiteC06_ReadWithSize.ext_ll id_decompress (fst f2)) 40 "LinkedLog.ReadWithSize"%string
+    [GoLite.VNil; GoLite.VInt (Z.of_N off); GoLite.VInt (Z.of_N size - 1)]
+  = GoLite.RRet (GoLite.VTuple [GoLite.VInts []; GoLiteC06_ReadWithSize.os_val ptr_zero; GoLite.VErr "fmt.Errorf"%string]).
+Proof. vm_compute. split; reflexivity. Qed.
+
 (* non-vacuity: the translated codec RUNS in the kernel: an entry is encoded, then read back field by field *)
 Example C06_translated_codec_runs :
   let e : entry := (300, 5, 432001, 6)%N in
@@ -345,3 +387,4 @@ Print Assumptions C06_translated_bitmap_set.
 Print Assumptions C06_translated_encodeUvarint_is_uvarint.
 Print Assumptions C06_translated_record_decoder_is_entries_dec.
 Print Assumptions C06_translated_record_decoder_roundtrip.
+Print Assumptions C06_translated_ReadWithSize_is_read_with_size.
